@@ -27,6 +27,9 @@ def lits(n):
 
 
 def run(ctx):
+    from .C15 import internal_passthrough
+    ctx.rule('R34.6', 'addon summaries (internal ctuinfo messages) pass the executors\' gate unfiltered')
+    internal_passthrough(ctx, 'R34.6')
     F = ctx.facts
     ctx.rule('R34.1', 'picojson get<T>() on addon output is guarded by is<T>() or the exception is contained (R34.2)')
     ctx.rule('R34.2', 'std::runtime_error from ill-typed addon output meets a handler on every path from main()')
